@@ -505,6 +505,75 @@ fn large_then_many(quick: bool) -> Vec<Scen> {
     v
 }
 
+
+/// a transient `Interrupted` on one read, under every single cut of a short pipelined stream:
+/// the connection may end there (it is an error report) or go on, but whatever reaches the shim
+/// must still be the client's commands, in order, byte for byte - never padding or stale bytes
+pub struct InterruptedReads {
+    scen: Scen,
+    max_reads: usize,
+}
+impl InterruptedReads {
+    fn new() -> Self {
+        let mut cmds = Vec::new();
+        let mut exp = vec![auth_cb()];
+        for (i, t) in [&b"SELECT id, name FROM customers WHERE id = 7"[..], &b"prepare me"[..], &b"db"[..], &b"tail"[..]].iter().enumerate() {
+            let (c, cb) = small_cmd(KINDS[i % 3], t);
+            cmds.push(c);
+            exp.push(cb);
+        }
+        let conv = Conv::new(cmds);
+        let scen = Scen::new("H + 4 commands, one cut, Interrupted once at one read".into(), conv, exp);
+        InterruptedReads { scen, max_reads: 6 }
+    }
+}
+impl Family for InterruptedReads {
+    fn name(&self) -> String {
+        "interrupted-once-at-a-read".into()
+    }
+    fn len(&self) -> u64 {
+        (self.scen.stream.len() * self.max_reads) as u64
+    }
+    fn run(&self, idx: u64, st: &mut Stats) -> Result<(), Violation> {
+        let cut = (idx as usize) / self.max_reads;
+        let k = (idx as usize) % self.max_reads;
+        let cuts = if cut == 0 { vec![] } else { vec![cut] };
+        // absolute op index of the k-th read of the undisturbed run under this cut
+        let mut sim = sim_for(&self.scen.stream, cuts.clone());
+        let base = run_conn(sim, ConnCfg::new(std_behave()));
+        let at = match base.sim.ops.iter().enumerate().filter(|(_, o)| o.kind == crate::sim::OpKind::Read).map(|x| x.0).nth(k) {
+            Some(a) => a,
+            None => {
+                st.skipped += 1;
+                return Ok(());
+            }
+        };
+        st.nontrivial += 1;
+        st.bump("interrupted_reads");
+        sim = sim_for(&self.scen.stream, cuts.clone());
+        sim.fault = Some(crate::sim::Fault { at_op: at, kind: crate::sim::FaultKind::Error(std::io::ErrorKind::Interrupted), persistent: false });
+        let o = run_conn(sim, ConnCfg::new(std_behave()));
+        st.transitions += o.sim.n_reads as u64;
+        let what = format!("cut {:?}, Interrupted once at read #{} (operation {})", cuts, k, at);
+        if let ConnResult::Panic(l, m) = &o.res {
+            return Err(Violation::new(panic_key(l, m), format!("{}: run_on panicked at {}: {}", what, l, m)));
+        }
+        let got: Vec<&Cb> = o.log.iter().map(|x| &x.1).collect();
+        for (i, g) in got.iter().enumerate() {
+            if self.scen.expected.get(i) != Some(*g) {
+                return Err(Violation::new("foreign-bytes-reached-the-shim", format!("{}: callback {} is {}, the client sent {}", what, i, cb_short(g), self.scen.expected.get(i).map(cb_short).unwrap_or_else(|| "nothing more".into()))));
+            }
+        }
+        if o.res.is_ok() && got.len() != self.scen.expected.len() {
+            return Err(Violation::new("callback-missing", format!("{}: run_on returned Ok after {} of {} callbacks", what, got.len(), self.scen.expected.len())));
+        }
+        Ok(())
+    }
+    fn describe(&self, idx: u64) -> J {
+        json!({"conversation": self.scen.label, "cut": idx as usize / self.max_reads, "interrupted_read": idx as usize % self.max_reads})
+    }
+}
+
 pub fn build(quick: bool) -> Check {
     let small = ChunkFamily::new("small-all-compositions", small_sequences(if quick { 17 } else { 23 }, if quick { 3 } else { 4 }));
     let phase = ChunkFamily::new("handshake-phase-boundary", phase_boundary(quick));
@@ -517,7 +586,7 @@ pub fn build(quick: bool) -> Check {
     Check {
         id: "C01",
         level: "model_checking",
-        rule: "every execution is one complete run of the real run_on over a scripted transport; schedules are sets of cut positions no read() may cross (all 2^n sets for streams of <= 17 (quick) / 23 (thorough) command bytes; all sets of <= 2-3 cuts for longer streams; <= 1-2 cuts around fragment headers for 16-32 MiB payloads; single-packet payloads around 2^15, 2^16, 2^17, 2^20 and up to 3 MB with <= 1-2 cuts; 300/1200 pipelined commands with a cut at (every fifth /) every position and under uniform read sizes 1..4097; a command of 70 KB..1.1 MB (thorough 5 KB..9 MB) followed by 40 / 1000 small commands in the same burst with <= 1 (thorough 2) cuts around the end of the large command and the next headers). Non-trivial = some read ends strictly inside a packet header or one read spans two messages.".into(),
+        rule: "every execution is one complete run of the real run_on over a scripted transport; schedules are sets of cut positions no read() may cross (all 2^n sets for streams of <= 17 (quick) / 23 (thorough) command bytes; all sets of <= 2-3 cuts for longer streams; <= 1-2 cuts around fragment headers for 16-32 MiB payloads; single-packet payloads around 2^15, 2^16, 2^17, 2^20 and up to 3 MB with <= 1-2 cuts; 300/1200 pipelined commands with a cut at (every fifth /) every position and under uniform read sizes 1..4097; a command of 70 KB..1.1 MB (thorough 5 KB..9 MB) followed by 40 / 1000 small commands in the same burst with <= 1 (thorough 2) cuts around the end of the large command and the next headers; every single cut of H + 4 commands with ErrorKind::Interrupted returned once by each read (what reaches the shim must stay a byte-exact prefix). Non-trivial = some read ends strictly inside a packet header or one read spans two messages.".into(),
         assumptions: vec![
             "1-byte reads over multi-megabyte payloads are not run (the implementation re-parses per read); they are covered exhaustively at small sizes".into(),
             "the oracle is the shim's callback log plus a strict client-side decode of all replies".into(),
@@ -525,7 +594,7 @@ pub fn build(quick: bool) -> Check {
         bounds: json!({"small_max_command_bytes": if quick {17} else {23}, "phase_max_cuts": if quick {2} else {3}, "threshold_max_cuts": 2, "fragment_max_cuts": if quick {1} else {2}}),
         exhaustive: true,
         caps_hit: vec![],
-        families: vec![Box::new(small), Box::new(phase), Box::new(thr), Box::new(frag), Box::new(sizes), Box::new(deep), Box::new(ltm)],
-        required: vec!["reads_ending_inside_a_header", "reads_spanning_two_messages", "executions_with_more_than_3_reads", "uniform_read_sizes"],
+        families: vec![Box::new(small), Box::new(phase), Box::new(thr), Box::new(frag), Box::new(sizes), Box::new(deep), Box::new(ltm), Box::new(InterruptedReads::new())],
+        required: vec!["interrupted_reads", "reads_ending_inside_a_header", "reads_spanning_two_messages", "executions_with_more_than_3_reads", "uniform_read_sizes"],
     }
 }
